@@ -126,6 +126,21 @@ CHECKS.update({
    ref='DESIGN.md I.2 (C17)'),
 })
 
+CHECKS.update({
+ 'C16': dict(
+   technique='bounded CBMC check (harness-enforced contract) of the extracted Message::checkLevel against a token-membership specification',
+   level='other',
+   text='BOUNDED, partial: Message::checkLevel is checked equal to exact token membership (empty level free, list "*" grants all, no prefix/suffix/infix match) for all level and list strings up to 9 characters over the full character set. That every read/write/poll/hex path consults hasLevel with the right user levels (mainloop.cpp, mqtthandler.cpp, datahandler.cpp, UserList) is NOT decided.',
+   note=TB + 'bounded string model (capacity 9, unwinding assertions); call sites in the command handlers are outside the extraction reach.',
+   ref='DESIGN.md I.2 (C16)'),
+ 'C18': dict(
+   technique='bounded CBMC check (harness-enforced contract) of the extracted RequestImpl::add HTTP branch against a decode-exactly-once specification, sscanf as a stub with a literal-format precondition',
+   level='other',
+   text='BOUNDED, partial: for every HTTP request line up to 14 characters the URI is proved to have every %XY escape decoded exactly once, left to right, and the sscanf format is proved to be the literal "%1x%1x" (never request text). Argument splitting (RequestImpl::split), the static file branch of executeGet (root confinement) and MQTT topic matching (StringReplacer) are NOT decided in this revision.',
+   note=TB + 'bounded string model (capacity 14, unwinding assertions); sscanf stub reads two hex digits.',
+   ref='DESIGN.md I.2 (C18)'),
+})
+
 NOT_APPLICABLE = {
 }
 NOT_BUILT_REASON = 'no contract for this property is built in this revision (see DESIGN.md I.2); the property is not claimed'
